@@ -109,7 +109,7 @@ class C13(Prop):
         medges = [None if e is None else [tc.cell_val(e[0]), tc.cell_val(e[1])] for e in mo["edges"]]
         all_edges = {x for e in medges if e for x in e}
         for i, v in enumerate(vals):
-            if not exact_edges and tc.near_edge(v, all_edges):
+            if not exact_edges and tc.near_edge(v, all_edges, eq=case["method"] == "uniform"):
                 self.edge_ties_skipped += 1
                 continue
             if io["bins"][i] != mo["bins"][i]:
